@@ -67,6 +67,7 @@ class ClassContract:
     doc: str = ""
     task_rely: Dict[str, List[Clause]] = field(default_factory=dict)
     task_inv: Dict[str, List[Clause]] = field(default_factory=dict)
+    published_inv: List[Clause] = field(default_factory=list)
 
 
 @dataclass
@@ -117,6 +118,7 @@ class Registry:
         props: Tuple[str, ...] = (),
         task_rely: Optional[Dict[str, List[ClauseSrc]]] = None,
         task_inv: Optional[Dict[str, List[ClauseSrc]]] = None,
+        published_inv: Optional[List[ClauseSrc]] = None,
     ) -> ClassContract:
         short = qualname.split(":")[1]
         c = ClassContract(
@@ -130,6 +132,7 @@ class Registry:
             interface=interface,
             task_rely={t: mk_clauses(f"{short}.rely[{t}]", cs, props) for t, cs in (task_rely or {}).items()},
             task_inv={t: mk_clauses(f"{short}.inv[{t}]", cs, props) for t, cs in (task_inv or {}).items()},
+            published_inv=mk_clauses(f"{short}.published", published_inv, props),
         )
         self.classes[qualname] = c
         return c
